@@ -979,9 +979,23 @@ static const char *timeout_status(pid_t pid)
 /* ------------------------------------------------------------------ threads (C09) */
 typedef struct { call_t *calls; int n; pthread_barrier_t *bar; int coop_index; volatile int *done; int park; volatile long long t0, t1; } thr_t;
 static long long now_us(void) { struct timespec ts; clock_gettime(CLOCK_MONOTONIC, &ts); return ts.tv_sec * 1000000LL + ts.tv_nsec / 1000; }
+static long g_thread_timer_us;
+static void arm_thread_timer(void)
+{
+    if (!g_thread_timer_us) return;
+    struct sigevent se; memset(&se, 0, sizeof se);
+    se.sigev_notify = SIGEV_THREAD_ID; se.sigev_signo = SIGALRM; se._sigev_un._tid = (pid_t) syscall(SYS_gettid);
+    timer_t t;
+    if (timer_create(CLOCK_MONOTONIC, &se, &t) < 0) return;
+    struct itimerspec its; its.it_interval.tv_sec = g_thread_timer_us / 1000000; its.it_interval.tv_nsec = (g_thread_timer_us % 1000000) * 1000;
+    its.it_value = its.it_interval;
+    timer_settime(t, 0, &its, NULL);
+}
+
 static void *thr_main(void *p)
 {
     thr_t *t = p;
+    arm_thread_timer();
     if (t->park == 1) S.park_thread_is_me();
     if (t->park == 2) S.aux_thread_is_me();
     if (t->park == 3) { t->t0 = now_us(); for (int i = 0; i < t->n; i++) call_run(&t->calls[i]); t->t1 = now_us(); if (t->done) *t->done = 1; return NULL; }
@@ -1231,6 +1245,7 @@ static void run_ops(op_t *ops, int nops)
             struct itimerval it; long us = (long) arg_ll(&op->a[0]);
             it.it_interval.tv_sec = us / 1000000; it.it_interval.tv_usec = us % 1000000; it.it_value = it.it_interval;
             if (setitimer(ITIMER_REAL, &it, NULL) < 0) ev_error("setitimer");
+            g_thread_timer_us = us;          /* threads started later get a timer of their own, aimed at themselves */
             break; }
         case 'q': { /* the calling program has selected a locale (setlocale): args name; LOCPATH comes with the environment */
             char *nm = dupz(op->a[0].p, op->a[0].len);
